@@ -400,6 +400,19 @@ def gen_setup_case(rng):
                           closed=[[14, 3]] if rng.random() < 0.2 else []))
     first = rng.sample(range(n), rng.choice([1, 2]))
     acts = [[0] + [[rng.choice([3, 3, 0]), f, rng.choice([0, 5])] for f in first], [1]]
+    if rng.random() < 0.3:
+        # the application handles ExceptionSignal itself (its callback asks for a redraw, or just notes the failure): a
+        # setup() / refresh() that raises no longer ends the application; the screen whose setup() raised is set up again
+        s0 = specs[0]
+        while len(s0) < 14:
+            s0.append([])
+        s0[12] = [[rng.choice([[7], [7], [14, 60], [6]])]] + s0[12][1:]
+        acts[0].insert(1, [22, 99, 0])
+        k = rng.randrange(n)
+        sk = specs[k]
+        while len(sk) < 14:
+            sk.append([])
+        sk[13] = [[15, rng.choice([1, 1, 2]), [[14, 61], [8]], [[14, 62]]]] + sk[13]
     typed = [[lib.cps(rng.choice(["1", "2", "3", "c", "c", "r", "x", "q"]))] for _ in range(rng.randrange(2, 12))]
     return [3000, specs, typed, [], 0, acts]
 
